@@ -42,7 +42,11 @@ func TestDispatch(t *testing.T) {
 	if in == "" || out == "" {
 		t.Skip("VERIF_IN / VERIF_OUT not set")
 	}
-	n, err := runDispatchFile(in, out, os.Getenv("VERIF_TARGETS"))
+	tmp := os.Getenv("VERIF_TMP")
+	if tmp == "" {
+		tmp = t.TempDir()
+	}
+	n, err := runDispatchFile(in, out, os.Getenv("VERIF_TARGETS"), tmp)
 	if err != nil {
 		t.Fatalf("dispatch driver: %v (after %d cases)", err, n)
 	}
